@@ -562,3 +562,76 @@ def glyph_instance_spec(pat):
         ob('instance-outline', conj([conj([eq(coords[i][0], want[i][0]), eq(coords[i][1], want[i][1])]) for i in range(3)]))
     wadv = aw + s1 * d1[4][0] + s2 * d2[4][0]
     ob('advance-within-half', conj([le(tg.width - wadv, 0.5), le(wadv - tg.width, 0.5)]))
+
+
+@kernel('C05', funcs=['misc/psCharStrings.py:calcSubrBias'],
+        bounds='ALL subroutine counts n in [0, 70000]: the bias is 107 below 1240 subroutines, 1131 below 33900, 32768 otherwise (Type 2 charstring format)',
+        quick=[dict()])
+def subr_bias_spec():
+    import builtins
+    n = V.int('n', 0, 70000)
+    lst = object()
+    # calcSubrBias(subrs) only takes len(subrs): the module-level name `len` is pointed at a stand-in whose length is the symbolic count
+    had = 'len' in PS.__dict__
+    saved = PS.__dict__.get('len')
+    PS.__dict__['len'] = lambda x: n if x is lst else builtins.len(x)
+    try:
+        bias = PS.calcSubrBias(lst)
+    finally:
+        if had:
+            PS.__dict__['len'] = saved
+        else:
+            del PS.__dict__['len']
+    observe('bias', bias)
+    ob('spec', eq(bias, ite(lt(n, 1240), 107, ite(lt(n, 33900), 1131, 32768))))
+
+
+@kernel('C05', funcs=['ttLib/ttGlyphSet.py:_TTGlyphGlyf._getGlyphInstance', 'ttLib/ttGlyphSet.py:_setCoordinates', 'ttLib/tables/_g_l_y_f.py:table__g_l_y_f._getCoordinatesAndControls'],
+        bounds='composite glyph (one component, symbolic offset) whose gvar tuple moves the component offset (symbolic deltas): the instance at a symbolic '
+               'location has offset = default + scalar * delta; asking AGAIN (same and another location) from the same font gives the same answers, and the '
+               'font\'s own glyf table still holds the default offset (drawing an instance does not write into the font)',
+        shims=['array("d") over reals'], quick=[dict()], isint_false=True)
+def composite_instance_is_pure():
+    from fontTools.ttLib import TTFont, newTable
+    from fontTools.ttLib.tables._f_v_a_r import Axis
+    font = TTFont(recalcTimestamp=False)
+    font.setGlyphOrder(['a', 'comp'])
+    fvar = newTable('fvar')
+    ax = Axis()
+    ax.axisTag, ax.minValue, ax.defaultValue, ax.maxValue = 'wght', 400, 400, 900
+    fvar.axes, fvar.instances = [ax], []
+    glyf = newTable('glyf')
+    a = GL.Glyph()
+    a.numberOfContours = 1
+    a.coordinates = GL.GlyphCoordinates([(0, 0), (100, 0), (50, 80)])
+    a.endPtsOfContours, a.flags, a.program = [2], bytearray([1, 1, 1]), None
+    a.xMin, a.yMin, a.xMax, a.yMax = 0, 0, 100, 80
+    comp = GL.Glyph()
+    comp.numberOfContours = -1
+    c = GL.GlyphComponent()
+    c.glyphName, c.flags = 'a', 0
+    ox, oy = V.int('ox', -500, 500, bv=False), V.int('oy', -500, 500, bv=False)
+    c.x, c.y = ox, oy
+    comp.components = [c]
+    comp.xMin, comp.yMin, comp.xMax, comp.yMax = 0, 0, 100, 80
+    glyf.glyphs, glyf.glyphOrder = {'a': a, 'comp': comp}, ['a', 'comp']
+    hmtx = newTable('hmtx')
+    hmtx.metrics = {'a': (500, 0), 'comp': (500, 0)}
+    gvar = newTable('gvar')
+    dx, dy = V.real('dx', -300, 300), V.real('dy', -300, 300)
+    gvar.variations = {'comp': [TVM.TupleVariation({'wght': (0, 1, 1)}, [(dx, dy), (0, 0), (0, 0), (0, 0), (0, 0)])], 'a': []}
+    font['fvar'], font['glyf'], font['hmtx'], font['gvar'] = fvar, glyf, hmtx, gvar
+    v1, v2 = V.real('v1', 0, 1), V.real('v2', 0, 1)
+    assume(lt(0, v1))
+    assume(lt(0, v2))
+
+    def offset_at(v):
+        gs = font.getGlyphSet(location={'wght': v}, normalized=True, recalcBounds=False)
+        inst = gs['comp']._getGlyphInstance()
+        return inst.components[0].x, inst.components[0].y
+    conds = []
+    for k, v in enumerate((v1, v1, v2, v1)):
+        x, y = offset_at(v)
+        conds.append(conj([eq(x, ox + v * dx), eq(y, oy + v * dy)]))
+    ob('every-draw-starts-from-the-default', conj(conds))
+    ob('font-not-modified', conj([eq(glyf['comp'].components[0].x, ox), eq(glyf['comp'].components[0].y, oy)]))
